@@ -522,6 +522,10 @@ def normalise(run):
                 t.timeout = True
                 op = t.op or ("spawn" if t.spawn_ok is None else "keep")
                 emit(t, {"e": "timeout", "op": op}, e)
+        elif ev == "race_done":
+            batch_threads += e["n"]
+            if e.get("bad", 0) > 0:
+                info["race_bad"] = e["bad"]
         elif ev == "set":
             pass
         elif ev == "baseline":
@@ -553,7 +557,7 @@ def normalise(run):
             batches.append({"e": "batch", "badfree": info["unattributed_badfree"], "left": left_unattr,
                             "left_n": e["left_n"], "threads": e["threads"],
                             "threads0": baseline["threads"] if baseline else 2, "growth": growth,
-                            "n": batch_threads, "stacks": 0, "panicked": batch_panicked,
+                            "n": batch_threads, "stacks": 0, "panicked": batch_panicked, "badjoin": info.get("race_bad", 0),
                             "vm_pages": e["vm_pages"], "maps": e["maps"], "raw": e})
             last_q = e
             batch_threads = 0
@@ -661,7 +665,7 @@ DEFAULTS = {"r": "-", "by": "-", "ok": True, "how": "-", "op": "-", "res": "-", 
             "hb": False, "val": 1, "acq": False, "word": 0, "what": "-", "flag": False, "own": 0, "foreign": 0,
             "last": True, "whole": True, "disarmed": False, "kept": False, "sys": False, "dv": False, "kind": "-",
             "quiet": True,
-            "badfree": 0, "left": 0, "threads": 0, "threads0": 0, "growth": 0, "n": 0, "stacks": 0, "run": 0}
+            "badfree": 0, "badjoin": 0, "left": 0, "threads": 0, "threads0": 0, "growth": 0, "n": 0, "stacks": 0, "run": 0}
 
 
 def _full(rec):
